@@ -4,6 +4,7 @@
   close of a closed channel — send on a closed channel cannot be expressed because every write is
   guarded by the writer's own mutex slot) and splits every blocking operation at its `select`.
 -/
+import Proofs.C01
 import Proofs.Lemmas.InprocAll
 import Proofs.Lemmas.InprocUnaryAll
 
@@ -136,3 +137,41 @@ theorem C05_unary_close_once (s : St) (hpc : s.pc = 2) : step s .wClose = none :
   simp [step, hpc]
 
 end InprocUnary
+
+/-! ### HTTP/1.1 client stream -/
+namespace HttpClientStream
+open InprocStream (Reason Res codeOf)
+
+/-- **No panic**: the two `panic("cs.rCh was closed but cs.done == false!")` are unreachable —
+    `rCh` is closed only by the completion `defer`, after `done` was set. -/
+theorem C05_http_no_panic (rs : Bool) (s : St) (h : Reachable rs s) :
+    s.panicked = false ∧ (s.rChClosed = true → s.done = true) :=
+  ⟨(hinv_reachable rs s h).noPanic, (hinv_reachable rs s h).closedDone⟩
+
+/-- **Once the reader goroutine has exited, nothing of the client stays blocked**: a pending RecvMsg
+    sees the closed channel, a SendMsg parked in the request pipe sees the closed pipe. -/
+theorem C05_http_progress_after_exit (rs : Bool) (s : St) (h : Reachable rs s) (hpc : s.pc = 3) :
+    (s.cRecv.isSome → (step s .cRecvClosed).isSome ∨ (step s .cViolation).isSome) ∧ (s.cSend.isSome → (step s .cSendPipeClosed).isSome) := by
+  have hi := hinv_reachable rs s h
+  obtain ⟨hcl, hpipe⟩ := hi.exited hpc
+  have hd := hi.closedDone hcl
+  refine ⟨?_, ?_⟩
+  · intro hp
+    cases hm : s.cRecv with
+    | none => simp [hm] at hp
+    | some m =>
+      cases m with
+      | first => left; simp [step, hm, hcl, hd]
+      | probe x => left; simp only [step, hm, hcl, hd]; (repeat' split) <;> simp_all
+      | violation => right; simp only [step, hm]; cases s.rErr <;> simp
+  · intro hp
+    cases hm : s.cSend with
+    | none => simp [hm] at hp
+    | some m => simp [step, hm, hpipe]
+
+/-- after completion, sends return io.EOF and receives repeat the final outcome -/
+theorem C05_http_after_done (s : St) (m : Nat) (hd : s.done = true) (hs : s.cSend = none) (hr : s.cRecv = none) :
+    step s (.cSendBegin m) = some (s, [.ret .cs .eof]) ∧ step s .cRecvBegin = some (s, [.ret .cr (finalOf s)]) := by
+  simp [step, hs, hr, hd]
+
+end HttpClientStream
